@@ -316,8 +316,19 @@ def statistics_stream(run, driver, n):
             s = sum(ws[1:])
             ws[1:] = [w * rest // s if s else 0 for w in ws[1:]]
             ws[-1] += total - sum(ws)
+        if rng.random() < 0.3 and k > 1:
+            # a running weight within a few millionths of one half, but not one half
+            total = 2 ** 21
+            half = total // 2 + rng.choice([-3, -1, 1, 2])
+            rest = total - half
+            others = sorted(rng.sample(range(1, rest), k - 2)) if k > 2 else []
+            ws = [half] + [b - a for a, b in zip([0] + others, others + [rest])]
         xs = [Fraction(rng.randint(-40, 40), rng.choice([1, 2, 4, 8])) for _ in range(k)]
-        if rng.random() < 0.3 and k > 2:
+        if total == 2 ** 21:
+            xs = sorted(set(xs))
+            if len(xs) < k:
+                continue  # distinct values, in the order of the weights: the near-half running weight is the first one
+        if rng.random() < 0.3 and k > 2 and total != 2 ** 21:
             xs[1] = xs[0]
         if len(set(xs)) != len(xs) and any(w == 0 for w in ws):
             continue  # argsort order among equal values with a zero weight in between is unspecified
@@ -331,6 +342,14 @@ def statistics_stream(run, driver, n):
         infl = C.frac(float(math_utils.compute_inflate(np.array([float(a) for a in ws])))) if sum(ws) else None
         run.case(case, len(set(xs)) > 1)
         run.count("calibration statistics")
+        # the statistic is a weighted median: at most half of the weight lies strictly below it and at most half strictly above
+        if not isinstance(got, dict):
+            below = sum(Fraction(a, total) for x, a in zip(xs, ws) if x < got)
+            above = sum(Fraction(a, total) for x, a in zip(xs, ws) if x > got)
+            if below > Fraction(1, 2) or above > Fraction(1, 2):
+                run.violation("the centre of a calibration group is not a weighted median of its bounds (more than half of the weight lies "
+                              "on one side of it)", input=case, impl=str(got), expected={"weight below": str(below), "weight above": str(above)},
+                              predicate="calibration statistics (weighted median)", signature="C15:median")
         ops.append({"op": "gauss.wmedian", "xw": [[C.rat(x), C.rat(Fraction(a, total))] for x, a in zip(xs, ws)]})
         meta.append((case, got, infl, ws))
     if driver is None or not ops:
@@ -350,6 +369,43 @@ def statistics_stream(run, driver, n):
             run.diff("compute_inflate vs sum of squares over square of sum", input=case, impl=str(infl), model=str(want_infl))
             continue
         run.traces += 1
+
+
+def api_estimands(run, n):
+    """through the client: the gaussian intervals reported for one estimand are computed from that estimand's own calibration (its own
+    unadjusted unit bounds, its own groups) - the same whether the estimand is requested alone or together with another"""
+    from harness import election as E
+    from harness import pairs as P
+
+    rng = run.rng
+    for _ in range(n):
+        e = E.gen_election(rng, size="medium", roles=["reporting"] * 7 + ["partial"] * 3, unexpected=False, min_reporting=30, n_states=2)
+        aggs = ["postal_code", "county_fips", "unit"]
+        case = {"api_estimands": True, "election": e.describe()}
+        both = E.run_client(e, estimands=["dem", "turnout"], alphas=[0.7], pi_method="gaussian", features=[], aggregates=aggs)
+        run.case(case, True)
+        run.count("api: two estimands vs one")
+        if "raises" in both:
+            continue
+        for est in ("dem", "turnout"):
+            one = E.run_client(e, estimands=[est], alphas=[0.7], pi_method="gaussian", features=[], aggregates=aggs)
+            if "raises" in one:
+                continue
+            bad = None
+            for t in ("state_data", "county_data", "unit_data"):
+                for col in (f"pred_{est}", f"lower_0.7_{est}", f"upper_0.7_{est}"):
+                    if [P.fhex(v) for v in both["tables"][t][col]] != [P.fhex(v) for v in one["tables"][t][col]]:
+                        bad = (t, col)
+                        break
+                if bad:
+                    break
+            if bad:
+                run.violation("the gaussian intervals of an estimand change when another estimand is requested in the same run (they are "
+                              "not computed from that estimand's own calibration)", input=case, impl={"table": bad[0], "column": bad[1]},
+                              predicate="assign_eq_source (own calibration)", signature="C15:api-estimands", election=e.to_json())
+                break
+        else:
+            run.traces += 1
 
 
 def extract(run):
@@ -383,6 +439,7 @@ def explore(run, driver, budget):
             mout = None
         check(run, c, impl, frames, mout, maps[i])
     statistics_stream(run, driver, {"quick": 200, "thorough": 8000, "search": 1500}[budget])
+    api_estimands(run, {"quick": 2, "thorough": 60, "search": 10}[budget])
 
 
 def replay(run, driver, payload):
